@@ -393,6 +393,72 @@ def o11(h, st):
 from tverif.engine import repeatable
 repeatable((MT, "fermion_to_qubit_mapping"), (MT, "make_up_then_down"), (JK, "jkmn"), (SM, "get_vector"), (SM, "get_reference_circuit"), (SM, "vector_to_circuit"))
 
+# ---------------------------------------------------------------------------------------------------------------------
+# P1  make_up_then_down for EVERY even register size and EVERY pair of mode indices (symbolic integers; the numpy index table as a symbolic-length array)
+
+from tverif.engine import stub
+from tverif.ring import Poly
+
+OPS_ = "tangelo/toolboxes/operators/operators.py"
+
+
+@contract("C03", "P1.make_up_then_down.any_size", targets=[(MT, "make_up_then_down")], level="P", structures=lambda tier: [{"shape": s} for s in ("hop", "double", "number")], max_paths=200)
+def p1(h, st):
+    """for EVERY even register size n and EVERY mode indices 0 <= p, q (, r, s) < n (symbolic integers): the excitation a_p^dag a_q (a_p^dag a_q^dag a_r a_s; a_p^dag a_p) is relabelled
+    letter by letter with R(k) = k // 2 + (k mod 2) * n / 2, ladder types and coefficient kept; R maps [0, n) into [0, n) and is injective (distinct modes stay distinct) - hence a
+    bijection of the modes for every even n, so that anticommutation relations and spectra are those of the input; the input operator is unchanged. (The index table built with
+    np.linspace / // / strided += on a length-n array is modelled as a symbolic-length array, tverif.interp.SymVec.)"""
+    if not h.symbolic:
+        h.check("native: covered by O1", True)
+        h.done()
+        return
+    from tangelo.toolboxes.operators import FermionOperator
+    n = h.integer("n")
+    h.assume(n >= 2)
+    h.assume(n % 2 == 0)
+    k = {"hop": 2, "double": 4, "number": 1}[st["shape"]]
+    idx = [h.integer(f"m{i}") for i in range(k)]
+    for m in idx:
+        h.assume(m >= 0)
+        h.assume(m < n)
+    if st["shape"] == "hop":
+        term = ((idx[0], 1), (idx[1], 0))
+    elif st["shape"] == "double":
+        term = ((idx[0], 1), (idx[1], 1), (idx[2], 0), (idx[3], 0))
+    else:
+        term = ((idx[0], 1), (idx[0], 0))
+    c = h.real("c")
+    h.assume(c > 0.5)
+    op = FermionOperator()
+    op.terms = {term: c}                       # (openfermion's constructor insists on concrete integers; the dictionary is what the code under contract reads)
+    created = []
+
+    def init_stub(a, kw):
+        me = a[0]
+        t = a[1] if len(a) > 1 else kw.get("term")
+        cf = a[2] if len(a) > 2 else kw.get("coefficient", 1.)
+        me.terms = {} if t is None else {tuple(t): cf}
+        me.n_spinorbitals = me.n_electrons = me.spin = None
+        created.append((t, cf))
+    stub(h, OPS_, "FermionOperator.__init__", init_stub)
+    before = dict(op.terms)
+    out = h.call(MT, "make_up_then_down", op, n)
+    h.check("input operator unchanged", op.terms == before and list(op.terms) == [term])
+    h.shape("one term in the result", len(out.terms) == 1)
+    (t2, c2), = out.terms.items()
+    h.check("same number of ladder operators, same types", len(t2) == len(term) and all(a[1] == b[1] for a, b in zip(t2, term)))
+    h.check_close("coefficient kept", c2, c)
+    half = n // 2
+    R = lambda m: m // 2 + (m % 2) * half
+    for i, ((m2, _), (m, _)) in enumerate(zip(t2, term)):
+        h.check_close(f"mode of ladder operator {i} relabelled with R(k) = k // 2 + (k mod 2) * n / 2", m2, R(m))
+        h.check(f"R(mode {i}) lies in [0, n)", (R(m) >= 0) & (R(m) < n))
+    if k >= 2:
+        a, b = idx[0], idx[1]
+        h.check("R is injective: R(a) == R(b) only if a == b", (~(R(a) == R(b))) | (a == b))
+    h.done()
+
+
 PROPERTY = {
     "level": "other",
     "explanation": "Full-space encodings (JW, BK, JKMN; both orderings; registers larger than the operator's support): adjoints, the canonical anticommutation "
